@@ -327,8 +327,13 @@ def check_c12(params, out):
         if not must:
             continue
         later = tr[pos + 1:]
-        went_on = any(ev[0] == "cb_loop_start" for ev in later) if not params["wait"] else \
-            any(ev[0] in ("s_suggest", "b_start", "b_resume") for ev in later)
+        if params["wait"]:
+            # the condition may stop holding again (e.g. a Stopping trial going back to InProgress): judge the next
+            # iteration only, i.e. up to the next evaluation point
+            nxt = next((i for i, ev in enumerate(later) if ev[0] == "cb_loop_end"), len(later))
+            went_on = any(ev[0] in ("s_suggest", "b_start", "b_resume") for ev in later[:nxt])
+        else:
+            went_on = any(ev[0] == "cb_loop_start" for ev in later)
         if went_on:
             bad.append(("at the end of iteration %d the stop condition holds (%s; %s) but the run went on for %d more "
                         "iterations (suggest had returned None before: %s)" % (
@@ -610,7 +615,7 @@ def scripted_runs(ctx, cases, checker, prop_name, shard=20):
             if lost:
                 ctx.violation("property", "start_jobs_without_delay=False: trials %s were started but no later poll lists them" % lost,
                               case=rep, signature=dict(check="sjwd_false", event="started_trial_never_polled"))
-        if out["outcome"][0] in ("ckpt_missing", "exception"):
+        if out["outcome"][0] in ("ckpt_missing", "exception") or out.get("copy_fault") is not None:
             ctx.h("outside_model", out["outcome"][0])   # a fault inside start_trial is not part of model/Tuner.v
             continue
         terms.append(coq_case(case, out))
